@@ -7,6 +7,7 @@ import (
 	"go/token"
 	"go/types"
 	"math/big"
+	"sort"
 	"strconv"
 	"strings"
 )
@@ -1085,6 +1086,9 @@ func (g *FuncGen) trCall(env *Env, x *ECall) Val {
 			g.unsup("cast: unknown type %s", x.Args[1])
 		}
 		s := c.sortOf(t)
+		if env.cur != nil { // (not inside the definition of a spec function, whose parameters are bound variables)
+			g.unboxFacts(a.T, t, eq(fmt.Sprintf("(i_typ %s)", a.T), fmt.Sprint(c.typeTag(t))))
+		}
 		return Val{T: c.unbox(s, fmt.Sprintf("(i_val %s)", a.T)), S: s, GT: t}
 	case "mathint":
 		a := g.defaultInt(g.tr(env, x.Args[0]))
@@ -1135,6 +1139,13 @@ func (g *FuncGen) trCall(env *Env, x *ECall) Val {
 		if v.S != ps {
 			g.unsup("spec function %s arg %d: sort %s, want %s (in %s)", x.Fun, i+1, v.S, ps, x)
 		}
+		if ps == SIface && pt != nil && env.cur != nil {
+			// an interface value handed to a spec function: the function may look inside it (cast); give the
+			// boxing facts for the implementations of the interface that the loaded packages declare
+			for _, it := range g.implementers(pt) {
+				g.unboxFacts(v.T, it, eq(fmt.Sprintf("(i_typ %s)", v.T), fmt.Sprint(c.typeTag(it))))
+			}
+		}
 		args = append(args, v)
 	}
 	rt, rs := g.specType(sf.Ret, pkg)
@@ -1165,6 +1176,47 @@ func (g *FuncGen) trCall(env *Env, x *ECall) Val {
 		term = fmt.Sprintf("(sf_%s %s)", sf.Name, strings.Join(ts, " "))
 	}
 	return Val{T: term, S: rs, GT: rt}
+}
+
+// implementers: named non-interface types of the loaded packages (value types holding arrays or structs) that
+// implement interface type t.
+func (g *FuncGen) implementers(t types.Type) []types.Type {
+	iface, ok := types.Unalias(t).Underlying().(*types.Interface)
+	if !ok || iface.NumMethods() == 0 {
+		return nil
+	}
+	var out []types.Type
+	var names []string
+	byName := map[string]types.Type{}
+	for _, p := range g.prog.TypesPkgs {
+		sc := p.Scope()
+		for _, n := range sc.Names() {
+			tn, ok := sc.Lookup(n).(*types.TypeName)
+			if !ok || tn.IsAlias() {
+				continue
+			}
+			nt := tn.Type()
+			if _, isI := nt.Underlying().(*types.Interface); isI {
+				continue
+			}
+			if named, ok := nt.(*types.Named); ok && named.TypeParams().Len() > 0 {
+				continue
+			}
+			if !isStructType(nt) && !isArrayType(nt) {
+				continue
+			}
+			if types.Implements(nt, iface) {
+				k := p.Path() + "." + n
+				names = append(names, k)
+				byName[k] = nt
+			}
+		}
+	}
+	sort.Strings(names)
+	for _, k := range names {
+		out = append(out, byName[k])
+	}
+	return out
 }
 
 func (g *FuncGen) coerceTo2(v Val, s Sort, t types.Type) Val {
